@@ -10,6 +10,7 @@ import polars as pl
 from pandera.api.base.types import CheckList
 from pandera.api.dataframe.components import ComponentSchema
 from pandera.api.polars.types import PolarsCheckObjects, PolarsDtypeInputTypes
+from pandera.api.polars.utils import get_validation_depth
 from pandera.backends.polars.register import register_polars_backends
 from pandera.config import config_context, get_config_context
 from pandera.engines import polars_engine
@@ -144,11 +145,14 @@ class Column(ComponentSchema[PolarsCheckObjects]):
 
         is_dataframe = isinstance(check_obj, pl.DataFrame)
 
+        # the default depth depends on the kind of object passed in (a
+        # LazyFrame is validated at schema level only): decide it before the
+        # DataFrame is turned into a LazyFrame
+        validation_depth = get_validation_depth(check_obj)
+
         if is_dataframe:
             check_obj = check_obj.lazy()
 
-        config_ctx = get_config_context(validation_depth_default=None)
-        validation_depth = config_ctx.validation_depth
         with config_context(validation_depth=validation_depth):
             output = self.get_backend(check_obj).validate(
                 check_obj,
